@@ -263,6 +263,8 @@ class Defn:
         self.fu: dict = {}
         self.uid = 0
         self.super_n = 0                # the first super_n names go to an old-style superclass __init__
+        self.hook_style: dict = {}      # "p:<name>" / "u:<name>" -> method | static | class | unbound
+        self.str_ann = False            # dataclass form: annotations written as strings where they can be
         self.kwonly = 0                 # the last `kwonly` names (all with defaults) are keyword-only in the user __init__
         self.derived: set = set()       # unpack hooks that the dataclass form must derive from the annotation itself
         self.nform: dict = {}           # form -> {field index -> form of the nested class}
@@ -358,6 +360,12 @@ def gen_defn(rng, formats, depth=0, max_fields=12) -> Defn:
         if f.ck in ("tuple", "set") and f.names[0] not in d.fu:
             d.fu[f.names[0]] = f.ck
             d.derived.add(f.names[0])
+    for n in d.fp:
+        d.hook_style["p:" + n] = rng.choice(["method", "method", "static", "class", "unbound"])
+    for n in d.fu:
+        if n not in d.derived:
+            d.hook_style["u:" + n] = rng.choice(["method", "method", "static", "unbound"])
+    d.str_ann = rng.random() < 0.4
     # user __init__ and defaults (suffix of the names)
     c = rng.random()
     if c >= 0.45 and c < 0.57:
@@ -426,16 +434,36 @@ def _mk_hook_unpack(fn):
     return classmethod(fix_unpack)
 
 
+import functools  # noqa: E402
+import operator  # noqa: E402
+
+# callables that are NOT bound through the instance (no descriptor): what `fix_pack_ip = socket.inet_aton` is
+UNBOUND = {_inc: functools.partial(operator.add, 1), _dec: functools.partial(operator.add, -1), _unhex: unhexlify,
+           _neg: operator.not_, _rev: operator.itemgetter(slice(None, None, -1))}
+
+
+def styled_hook(fn, style, pack):
+    """a rule in the way a class body can declare it: ordinary method (pack) / classmethod (unpack), staticmethod,
+    classmethod, or a builtin / C-level callable assigned directly"""
+    if style == "static":
+        return staticmethod(fn)
+    if style == "class":
+        return classmethod(lambda cls, value: fn(value))
+    if style == "unbound" and fn in UNBOUND:
+        return UNBOUND[fn]
+    return _mk_hook_pack(fn) if pack else _mk_hook_unpack(fn)
+
+
 def namespace_for(d: Defn, form: str, with_init=True):
     from ipv8.messaging.lazy_payload import VariablePayload
     ns = {}
     for n, k in d.fp.items():
-        ns["fix_pack_" + n] = _mk_hook_pack(HOOKS[k][0])
+        ns["fix_pack_" + n] = styled_hook(HOOKS[k][0], d.hook_style.get("p:" + n, "method"), True)
     for n, k in d.fu.items():
         if form == "D" and n in d.derived:
             continue        # convert_to_payload has to derive this one from the tuple[...] / set[...] annotation
         ns["fix_unpack_" + n] = staticmethod(HOOKS[k][1]) if k in ("tuple", "set") and n not in d.derived \
-            else _mk_hook_unpack(HOOKS[k][1])
+            else styled_hook(HOOKS[k][1], d.hook_style.get("u:" + n, "method"), False)
     if with_init and d.user_init == "star":
         env = {"_VP": VariablePayload}
         exec("def __init__(self, *args, **kwargs):\n    _VP.__init__(self, *args, **kwargs)\n", env)
@@ -505,6 +533,37 @@ def annotation_for(d: Defn, i: int, f: Field, rng_choice=0):
     return {"list": list, "tuple": tuple, "set": set}[f.ck][elem]
 
 
+def annotation_text(d: Defn, i: int, f: Field, ann):
+    """the annotation as SOURCE TEXT (what `from __future__ import annotations` / a quoted annotation leaves in the class)
+    where it can be written so that get_type_hints resolves it in the generated module: builtin types, containers of
+    them, and nested dataclass payloads that were published there by their own conversion; otherwise the object"""
+    names = {bool: "bool", int: "int", float: "float", bytes: "bytes", str: "str"}
+
+    def elem_text(e):
+        if isinstance(e, type) and e in names:
+            return names[e]
+        if isinstance(e, type) and getattr(sys.modules.get(generated_module()), e.__name__, None) is e:
+            return e.__name__
+        return None
+
+    if isinstance(ann, list):
+        et = elem_text(ann[0])
+        return f"[{et}]" if et else ann
+    if isinstance(ann, type) and ann in names:
+        return names[ann]
+    origin = getattr(ann, "__origin__", None)
+    if origin in (list, tuple, set):
+        args = ann.__args__
+        et = elem_text(args[0])
+        if et is None:
+            return ann
+        rest = "".join(", ..." if a is Ellipsis else ", " + (elem_text(a) or "int") for a in args[1:])
+        return f"{origin.__name__}[{et}{rest}]"
+    if isinstance(ann, type):
+        return elem_text(ann) or ann
+    return ann
+
+
 def old_style_base(d: Defn):
     """an old-style Payload whose __init__ takes the first super_n field names and stores them"""
     from ipv8.messaging.serialization import Payload
@@ -557,6 +616,8 @@ def build(d: Defn, form: str, fresh=False):
             for i, f in enumerate(d.fields):
                 n = f.names[0]
                 ann = annotation_for(d, i, f, d.uid + i)
+                if d.str_ann:
+                    ann = annotation_text(d, i, f, ann)
                 if n in d.defaults:
                     kwo = bool(d.kwonly) and n in d.names[len(d.names) - d.kwonly:]
                     fields.append((n, ann, dataclasses.field(default=d.defaults[n], kw_only=kwo)))
@@ -968,7 +1029,8 @@ def dec_default(x):
 def defn_replay(d: Defn):
     return {"fields": [{"kind": f.kind, "fmt": f.fmt, "names": f.names, "ty": f.ty, "ck": f.ck, "ann": f.ann,
                         "sub": defn_replay(f.sub) if f.sub else None} for f in d.fields],
-            "user_init": d.user_init, "super_n": d.super_n, "kwonly": d.kwonly, "derived": sorted(d.derived),
+            "user_init": d.user_init, "super_n": d.super_n, "kwonly": d.kwonly, "hook_style": d.hook_style,
+            "str_ann": d.str_ann, "derived": sorted(d.derived),
             "defaults": {k: enc_default(v) for k, v in d.defaults.items()},
             "fix_pack": d.fp, "fix_unpack": d.fu, "nested_forms": {k: {str(i): v for i, v in m.items()}
                                                                    for k, m in d.nform.items()}}
@@ -1053,6 +1115,18 @@ class Run:
                 B(ctx, "derived:" + k_)
             elif k_ in ("tuple", "set", "sortedtuple") and "D" in forms:
                 B(ctx, "derived:user-rule-kept")
+        for key_, st_ in d.hook_style.items():
+            ctx.count(f"hook-style:{'pack' if key_[0] == 'p' else 'unpack'}:{st_}")
+            if key_[0] == "p" and st_ != "method":
+                B(ctx, "hook-style:pack-" + st_)
+            if key_[0] == "u" and st_ in ("static", "unbound"):
+                B(ctx, "hook-style:unpack-not-classmethod")
+        if "D" in forms and d.str_ann:
+            ctx.count("annotations:as-text")
+            if any(f.ck in ("tuple", "set") for f in d.fields):
+                B(ctx, "annotations:text-container")
+            if any(f.sub is not None for f in d.fields):
+                B(ctx, "annotations:text-with-nested")
         for n_, k_ in d.fp.items():
             ctx.count(f"hook:fix_pack:{k_}")
         for n_, k_ in d.fu.items():
@@ -2363,6 +2437,9 @@ REQUIRED_BRANCHES = [
     "nesting:bytes-compositional", "nesting:decode-through-nested",
     # own __init__ that only forwards (*args / renamed parameters); string annotations over generations (publish / resolveName)
     "custom-init:star", "custom-init:renamed", "postponed:first-generation", "postponed:later-generation",
+    # how a rule is declared in the class body; annotations left as text (PEP 563 / quoted)
+    "hook-style:pack-static", "hook-style:pack-class", "hook-style:pack-unbound", "hook-style:unpack-not-classmethod",
+    "annotations:text-container", "annotations:text-with-nested",
 ]
 
 
@@ -2434,6 +2511,8 @@ def defn_from_replay(rec) -> Defn:
     d.user_init = rec["user_init"]
     d.super_n = rec.get("super_n", 0)
     d.kwonly = rec.get("kwonly", 0)
+    d.hook_style = rec.get("hook_style", {})
+    d.str_ann = rec.get("str_ann", False)
     d.defaults = {k: dec_default(v) for k, v in rec["defaults"].items()}
     d.derived = set(rec.get("derived", []))
     d.fp, d.fu = rec["fix_pack"], rec["fix_unpack"]
